@@ -22,6 +22,21 @@ CHECKS = {
    "For each generated string v, 12 filter templates with ldap_escape(v) and 5 DN templates with dn_escape(v) are read by independent strict readers (and by parse_filter + harness BER decoder) and must keep their structure with value == v; unescape round trip; identity on strings needing no escaping. All ASCII strings of length <=2 (<=3 thorough) are enumerated exhaustively.",
    "Trusted base: harness/src/dn.rs and harness/src/filter.rs strict readers (unit-tested on the RFC examples).",
    "DESIGN.md §3 C09, Appendix F", "harness"),
+ "C15": ("exploration",
+   "property-based testing (proptest): generated entries encoded by an independent BER writer with generated length forms, SearchEntry::construct output compared with a reference classification",
+   "Entries with distinct attribute descriptions and values drawn from valid/empty/invalid UTF-8 in every order are compared against the stated classification rule (exactly one map, text iff all values UTF-8 in order, else binary multiset).",
+   "Trusted base: harness BER writer and entry model. DN and attribute descriptions are UTF-8 as in every well-formed entry.",
+   "DESIGN.md §3 C15", "harness"),
+ "C19": ("exploration",
+   "property-based testing (proptest): request structs -> OID/criticality/BER value decoded by an independent codec vs RFC models; model-built response values with generated length forms -> parsed struct; control lists through the message envelope in both directions",
+   "All 14 request controls/exops, 10 response value kinds and the control-list envelope are driven with generated field values over their RFC ranges and compared with RFC-derived reference encodings/decodings.",
+   "Trusted base: harness BER codec, filter model and the RFC facts in DESIGN.md §3 C19. Response values stay within what the result structs can represent.",
+   "DESIGN.md §3 C19", "harness"),
+ "C20": ("exploration",
+   "property-based testing (proptest): components formatted by an independent RFC 4516 writer with generated percent-encoding choices, get_url_params output compared with the components; one-error injection lane",
+   "Base DN, attribute list, scope, filter and extension list are generated (incl. ? , = % # / spaces, non-ASCII), formatted with mandatory and random optional percent-encoding and parsed back; defaults for omitted components and the three documented error classes are checked.",
+   "Trusted base: harness RFC 4516 writer; url::Url (the documented argument type). Attribute selectors are not percent-encoded (borrowed &str by design).",
+   "DESIGN.md §3 C20", "harness"),
 }
 
 NOT_YET = {}
